@@ -476,6 +476,114 @@ fn run_neighbour_mixtures(cx: &mut CaseCx, case: &Value) {
   cx.outcome(format!("t={}", t));
 }
 
+
+/// Produced by one path, consumed by the other: shares created by the CORE library grouped through the string
+/// API, shares created through the string API recovered by the core library and by the reference aggregation
+/// side, and mixed collections of both; 300 create_share calls in a row stay consistent.
+fn run_cross_consumption(cx: &mut CaseCx, case: &Value) {
+  let t = case["t"].as_u64().unwrap() as u32;
+  let m = measurements()[case["m"].as_u64().unwrap() as usize].clone();
+  let eps = epochs();
+  let epoch = eps[case["e"].as_u64().unwrap() as usize].clone();
+  let d = json!({"t": t, "measurement": hexs(&m), "epoch": epoch});
+  let n = t as usize;
+  // wrapper-created
+  let mut w: Vec<Created> = vec![];
+  for i in 0..n {
+    getrandom::verif::set_group(i as u32 + 1);
+    match create(cx, &m, t, &epoch, &d) {
+      Some(c) => w.push(c),
+      None => return,
+    }
+  }
+  // core-created (both core paths)
+  let mg = MessageGenerator::new(SingleMeasurement::new(&m), t, epoch.as_bytes());
+  let mut core_b64: Vec<String> = vec![];
+  let mut core_shares: Vec<sta_rs::Share> = vec![];
+  let mut core_key: Option<[u8; 16]> = None;
+  for i in 0..n {
+    getrandom::verif::set_group(100 + i as u32);
+    let sh = if i % 2 == 0 {
+      match guard(|| mg.share_with_local_randomness().map_err(|e| e.to_string())) {
+        Ok(Ok(x)) => {
+          core_key = Some(x.key);
+          x.share
+        }
+        _ => return,
+      }
+    } else {
+      match gen_report(&m, epoch.as_bytes(), t, &local_randomness(&m, epoch.as_bytes(), t), &None) {
+        Ok(r) => r.share,
+        Err(_) => return,
+      }
+    };
+    core_b64.push(BASE64_STANDARD.encode(sh.to_bytes()));
+    core_shares.push(sh);
+  }
+  cx.nontrivial(fnv_str(&case.to_string()));
+  let key_b64 = BASE64_STANDARD.encode(&w[0].key);
+  if core_key.map(|k| k.to_vec()) != Some(w[0].key.clone()) {
+    cx.viol("C17/key-differs-from-core", "the wrapper's key differs from the core library's", d.clone());
+    return;
+  }
+  // every split: k wrapper shares + (t-k) core shares, through BOTH consumers
+  for k in 0..=n {
+    let lines: Vec<String> = w.iter().take(k).map(|c| c.share_b64.clone()).chain(core_b64.iter().take(n - k).cloned()).collect();
+    cx.eval();
+    cx.count("states", 1);
+    cx.count("transitions", 1);
+    match guard(|| star_wasm::group_shares(&lines.join("\n"), &epoch)) {
+      Ok(Some(got)) if got == key_b64 => cx.count("cross_grouped", 1),
+      other => {
+        cx.viol("C17/cross-consumption/group_shares", format!("{} wrapper-created + {} core-created shares of one measurement do not group to the clients' key through group_shares: {:?}", k, n - k, other.map(|o| o.map(|s| s.chars().take(8).collect::<String>()))), json!({"t": t, "wrapper_shares": k, "core_shares": n - k, "epoch": epoch}));
+        return;
+      }
+    }
+    let shares: Vec<sta_rs::Share> = w.iter().take(k).filter_map(|c| BASE64_STANDARD.decode(&c.share_b64).ok().and_then(|b| sta_rs::Share::from_bytes(&b))).chain(core_shares.iter().take(n - k).cloned()).collect();
+    cx.eval();
+    match recover_msg(&shares) {
+      Ok(Ok(r0)) => {
+        let mut kk = vec![0u8; 16];
+        sta_rs::derive_ske_key(&r0, epoch.as_bytes(), &mut kk);
+        if kk != w[0].key {
+          cx.viol("C17/cross-consumption/core-recovery", "the core library recovers another key from wrapper-created shares than the wrapper reported", json!({"t": t, "wrapper_shares": k}));
+          return;
+        }
+        cx.count("cross_recovered", 1);
+      }
+      other => {
+        cx.viol("C17/cross-consumption/core-recovery", format!("{} wrapper-created + {} core-created shares do not recover through the core library: {:?}", k, n - k, other.map(|r| r.map(|_| ()))), json!({"t": t, "wrapper_shares": k, "core_shares": n - k}));
+        return;
+      }
+    }
+  }
+  // 300 calls in a row: key and tag constant, shares valid and pairwise at different points
+  if case["long"].as_bool() == Some(true) {
+    let mut xs: Vec<BigUint> = vec![];
+    for i in 0..300u32 {
+      getrandom::verif::set_group(1000 + i);
+      match create(cx, &m, t, &epoch, &d) {
+        Some(c) => {
+          if c.key != w[0].key {
+            cx.viol("C17/keys-differ-between-clients", format!("create_share call number {} returns another key", i + 1), d.clone());
+            return;
+          }
+          xs.push(c.x);
+        }
+        None => return,
+      }
+    }
+    let mut sx = xs.clone();
+    sx.sort();
+    sx.dedup();
+    if sx.len() != xs.len() {
+      cx.viol("C17/share-points-repeat", "300 create_share calls (fresh entropy each) repeat an evaluation point", d.clone());
+    }
+    cx.count("calls_in_a_row", 300);
+  }
+  cx.outcome(format!("t={}", t));
+}
+
 pub fn spec() -> PropSpec {
   PropSpec {
     id: "C17",
@@ -519,6 +627,23 @@ pub fn spec() -> PropSpec {
       },
       run: run_neighbour_mixtures,
       min_counts: &[("mixture_none", 5000)],
+    },
+    Check {
+      name: "cross-consumption",
+      rule: "produced by one path, consumed by the other (t in 1..4 x 6 measurements x 3 epochs): every split of k shares created through the string API and t-k shares created by the core library (alternately share_with_local_randomness and Message::generate) groups to the clients' key through group_shares AND recovers through the core library to the key the wrapper reported; 300 create_share calls in a row keep key, tag and core equality and never repeat an evaluation point",
+      gen: |_| {
+        let mut v = vec![];
+        for t in 1..=4u64 {
+          for m in 0..measurements().len() {
+            for e in [0usize, 1, 4] {
+              v.push(json!({"t": t, "m": m, "e": e, "long": m == 5 && e == 1}));
+            }
+          }
+        }
+        v
+      },
+      run: run_cross_consumption,
+      min_counts: &[("cross_grouped", 200), ("cross_recovered", 200), ("calls_in_a_row", 900)],
     },
     Check {
       name: "call-history",
